@@ -85,6 +85,18 @@ var props = map[string]*propCfg{}
 
 func reg(p *propCfg) { props[p.ID] = p }
 
+// withFuzz: the plain monitor, plus - in the thorough tier - coverage-guided native fuzzing of
+// the same oracle (target, executions, monitor under which a failing input is filed).
+func withFuzz(target string, execs int, monitor string) func(string) []variant {
+	return func(tier string) []variant {
+		vs := []variant{{Name: "main", Shards: 1}}
+		if tier == "thorough" {
+			vs = append(vs, variant{Name: "fuzz", Shards: 1, Fuzz: target, FuzzExecs: execs, Monitor: monitor})
+		}
+		return vs
+	}
+}
+
 func simple(race bool) func(string) []variant {
 	return func(string) []variant { return []variant{{Name: "main", Race: race, Shards: 1}} }
 }
@@ -216,6 +228,15 @@ func runProp(id, tier string, rp *replayReq) int {
 	}()
 
 	vars := p.Variants(tier)
+	if only := os.Getenv("VERIF_ONLY_VARIANT"); only != "" { // experiments: one variant in isolation
+		var keep []variant
+		for _, v := range vars {
+			if v.Name == only {
+				keep = append(keep, v)
+			}
+		}
+		vars = keep
+	}
 	if rp != nil {
 		for i := range vars {
 			vars[i].Shards = 1
